@@ -1,7 +1,7 @@
 //! Ghost event log: what the real code did to the outside world, as a bounded array of events.
 //! Overflow is an assertion failure (bound exceeded => reported, never assumed away).
 
-pub const NEV: usize = 40;
+pub const NEV: usize = 20;
 
 #[derive(Clone, Copy, PartialEq, Eq, Debug)]
 #[repr(u8)]
@@ -38,6 +38,8 @@ pub struct Log {
     pub a: [usize; NEV],
     pub b: [usize; NEV],
     pub c: [usize; NEV],
+    /// payload (metadata slot writes: start, len, reserved, id_len<<8|first id byte)
+    pub x: [[u64; 4]; NEV],
     pub n: usize,
     pub tap_locks: bool,
     pub tap_access: bool,
@@ -48,6 +50,7 @@ pub static mut LOG: Log = Log {
     a: [0; NEV],
     b: [0; NEV],
     c: [0; NEV],
+    x: [[0; 4]; NEV],
     n: 0,
     tap_locks: false,
     tap_access: false,
@@ -71,6 +74,13 @@ pub fn log(k: K, a: usize, b: usize, c: usize) {
     l.b[n] = b;
     l.c[n] = c;
     l.n = n + 1;
+}
+
+#[inline]
+pub fn log_x(k: K, a: usize, b: usize, c: usize, x: [u64; 4]) {
+    let n = get().n;
+    log(k, a, b, c);
+    get().x[n] = x;
 }
 
 pub fn clear() {
